@@ -76,6 +76,18 @@ CorrEml(r, t, isroot) ==
   \cup (IF Len(t.kids) # Len(er) THEN {"children"}
         ELSE UNION {CorrEml(er[i].e, t.kids[i], FALSE) : i \in 1..Len(er)})
 
+(* the legacy importer mp_io.from_xml (not one of the listed properties; judged as information): local names,
+   unqualified attributes, text unless it is pure whitespace, no tails, no namespace data *)
+RECURSIVE CorrLegacy(_, _)
+CorrLegacy(r, t) ==
+  LET er == RElems(r)  sg == RSegs(r)  pa == PlainAttrs(r)
+      txt == IF sg[1] = NONE \/ sg[1] = <<>> \/ AllOf(sg[1], AnyWs) THEN NONE ELSE sg[1]
+  IN (IF t.name = r.l THEN {} ELSE {"legacy:element-name"})
+  \cup (IF t.prefix = "" /\ t.ns = <<>> /\ t.extras = <<>> /\ t.tail = NONE THEN {} ELSE {"legacy:namespace-data-or-tail-present"})
+  \cup (IF Len(t.attrs) = Len(pa) /\ \A i \in 1..Len(pa) : t.attrs[i] = <<pa[i].l, pa[i].v>> THEN {} ELSE {"legacy:attributes"})
+  \cup (IF t.content = txt THEN {} ELSE {"legacy:content"})
+  \cup (IF Len(t.kids) # Len(er) THEN {"legacy:children"} ELSE UNION {CorrLegacy(er[i].e, t.kids[i]) : i \in 1..Len(er)})
+
 (* import - export - import: the same tree up to the whitespace policy *)
 RECURSIVE SameUpToWs(_, _)
 SameUpToWs(a, b) ==
